@@ -225,12 +225,13 @@ func (c *ctx) genExprSites(b *strings.Builder) {
 // ---- lock paths ---------------------------------------------------------------------------
 //
 // lockPaths: every control-flow path through a small loop-free function as a list of events:
-//   "Lock x" / "Unlock x" / "RLock x" / "RUnlock x"   mutex operations (x = receiver text)
-//   "call f"      call statement of a declared function or method (f = callee text)
-//   "dyncall f"   call statement of a FUNCTION VALUE (local variable or field): a user callback
-//   "if c" / "else c"   the branch taken at an `if`
-//   "assign x"    assignment (left-hand sides)
-//   "return"
+// (kind, text) pairs:
+//   ("Lock", x) / ("Unlock", x) / ("RLock", x) / ("RUnlock", x)   mutex operations (x = receiver text)
+//   ("call", f)      call statement of a declared function or method (f = callee text)
+//   ("dyncall", f)   call statement of a FUNCTION VALUE (local variable or field): a user callback
+//   ("if", c) / ("else", c)   the branch taken at an `if`
+//   ("assign", x)    assignment (left-hand sides)
+//   ("return", "")
 // Statements outside this subset (loops, switch, defer, go, select) are a hard error.
 
 var lockPathFuncs = []string{"Stream.onBufferReleased"}
@@ -257,16 +258,16 @@ func (c *ctx) stmtEvents(fn string, list []ast.Stmt, prefix []string, out *[][]s
 				} else {
 					lhs = append(lhs, exprText(x.(*ast.IncDecStmt).X))
 				}
-				next = append(next, append(append([]string{}, p...), "assign "+strings.Join(lhs, ", ")))
+				next = append(next, append(append([]string{}, p...), "assign\x00"+strings.Join(lhs, ", ")))
 			case *ast.ReturnStmt:
-				*out = append(*out, append(append([]string{}, p...), "return"))
+				*out = append(*out, append(append([]string{}, p...), "return\x00"))
 			case *ast.IfStmt:
 				if x.Init != nil {
 					die("lockPaths %s: if with init at %s", fn, c.pos(s))
 				}
 				cond := exprText(x.Cond)
-				next = append(next, c.stmtEvents(fn, x.Body.List, append(append([]string{}, p...), "if "+cond), out)...)
-				el := append(append([]string{}, p...), "else "+cond)
+				next = append(next, c.stmtEvents(fn, x.Body.List, append(append([]string{}, p...), "if\x00"+cond), out)...)
+				el := append(append([]string{}, p...), "else\x00"+cond)
 				switch e := x.Else.(type) {
 				case nil:
 					next = append(next, el)
@@ -291,22 +292,22 @@ func (c *ctx) callEvent(call *ast.CallExpr) string {
 			if tv, ok := c.info.Types[sel.X]; ok {
 				switch tv.Type.String() {
 				case "sync.Mutex", "sync.RWMutex", "*sync.Mutex", "*sync.RWMutex":
-					return sel.Sel.Name + " " + exprText(sel.X)
+					return sel.Sel.Name + "\x00" + exprText(sel.X)
 				}
 			}
 		}
 		if s, ok := c.info.Selections[sel]; ok && s.Kind() == types.FieldVal {
-			return "dyncall " + exprText(call.Fun) // calling a field of function type
+			return "dyncall\x00" + exprText(call.Fun) // calling a field of function type
 		}
-		return "call " + exprText(call.Fun)
+		return "call\x00" + exprText(call.Fun)
 	}
 	if id, ok := call.Fun.(*ast.Ident); ok {
 		if _, isVar := c.info.Uses[id].(*types.Var); isVar {
-			return "dyncall " + id.Name
+			return "dyncall\x00" + id.Name
 		}
-		return "call " + id.Name
+		return "call\x00" + id.Name
 	}
-	return "dyncall " + exprText(call.Fun)
+	return "dyncall\x00" + exprText(call.Fun)
 }
 
 func (c *ctx) lockFacts() []fact {
@@ -320,16 +321,21 @@ func (c *ctx) lockFacts() []fact {
 		var done [][]string
 		open := c.stmtEvents(fn, fd.Body.List, nil, &done)
 		for _, p := range open {
-			done = append(done, append(p, "return"))
+			done = append(done, append(p, "return\x00"))
 		}
 		var ps []string
 		for _, p := range done {
-			ps = append(ps, lstrs(p))
+			var evs []string
+			for _, e := range p {
+				kv := strings.SplitN(e, "\x00", 2)
+				evs = append(evs, ltuple(lstr(kv[0]), lstr(kv[1])))
+			}
+			ps = append(ps, llist(evs, false))
 		}
 		fns = append(fns, ltuple(lstr(fn), llist(ps, true)))
 	}
-	fs = append(fs, fact{"lockPaths", "List (String × List (List String))",
-		"per listed loop-free function: every control-flow path as a list of events (Lock x / Unlock x / call f / dyncall f = call of a function VALUE / if c / else c / assign x / return)",
+	fs = append(fs, fact{"lockPaths", "List (String × List (List (String × String)))",
+		"per listed loop-free function: every control-flow path as a list of (kind, text) events: Lock / Unlock / RLock / RUnlock x, call f, dyncall f (= call of a function VALUE), if c / else c (branch taken), assign x, return",
 		llist(fns, true)})
 
 	// the statements directly around every call of (*Stream).onBufferReleased
